@@ -78,7 +78,7 @@ MixedListCases ==
   LET is == Small(Ints)  ds == Small(Decs) IN
   {Case("list", "f:(" \o is[i].text \o " OR " \o ds[j].text \o " OR " \o is[(i % Len(is)) + 1].text \o ")",
         [form |-> "list", items |-> <<is[i], ds[j], is[(i % Len(is)) + 1]>>], <<is[i], ds[j], is[(i % Len(is)) + 1]>>, "num",
-        "f:(" \o ds[j].text \o " OR " \o is[i].text \o ")") : i \in DOMAIN is, j \in DOMAIN ds}
+        "f:(" \o ds[j].text \o " OR " \o is[i].text \o " OR " \o ds[(j % Len(ds)) + 1].text \o ")") : i \in DOMAIN is, j \in DOMAIN ds}
 \* a wildcard-looking word where no pattern is matched (a comparison, a range bound): it is that string, untranslated
 WildStrs == << V("str", "x*", 0, 0, <<120,42>>), V("str", "b?", 0, 0, <<98,63>>) >>
 WildCmpCases == {Case("cmp", "f" \o OpSym(op) \o WildStrs[i].text, [form |-> "cmp", op |-> op, v |-> WildStrs[i]], <<WildStrs[i]>>, "str",
